@@ -158,12 +158,33 @@ def xlate_bin():
 # ------------------------------------------------------------------------------------------------
 # stage: corpus
 
+def source_constants():
+    """every integer literal (1..=200) that occurs in the macro's source files of the tree under test"""
+    out = set()
+    root = os.path.join(REPO, 'bitbybit', 'src')
+    for dp, dn, fn in os.walk(root):
+        for f in fn:
+            if f.endswith('.rs') and f != 'verif_hooks.rs':
+                txt = open(os.path.join(dp, f), errors='replace').read()
+                for m in re.finditer(r'(?<![\w.])(0x[0-9a-fA-F_]+|0b[01_]+|[0-9][0-9_]*)(?:_?(?:u|i)(?:8|16|32|64|128|size))?\b', txt):
+                    t = m.group(1).replace('_', '')
+                    try:
+                        v = int(t, 0) if t.startswith(('0x', '0b')) else int(t)
+                    except ValueError:
+                        continue
+                    if 1 <= v <= 200:
+                        out.add(v)
+    return sorted(out)
+
+
 def stage_corpus(ws):
     if ws.done('corpus'):
         return json.load(open(ws.path('corpus.json')))
-    ds = corpus.generate(ws.seed, ws.tier)
+    consts = source_constants()
+    ds = corpus.generate(ws.seed, ws.tier, consts)
     json.dump(ds, open(ws.path('corpus.json'), 'w'))
-    ws.mark('corpus', {'n': len(ds)})
+    ws.mark('corpus', {'n': len(ds), 'source_constants': consts})
+    log('corpus: %d declarations; integer literals in the macro source: %s' % (len(ds), consts))
     return ds
 
 
